@@ -408,10 +408,10 @@ func checkRecoveryCallback(c *Ctx, r *Report) {
 		if !ok {
 			continue
 		}
-		if bo.Op == token.NEQ && cf.True && mentionsField(bo.X, pkgDomain, "Endpoint", "Status", 2) && mentionsField(bo.Y, pkgDomain, "HealthCheckResult", "Status", 2) {
+		if assertsNeq(bo, cf.True) && mentionsField(bo.X, pkgDomain, "Endpoint", "Status", 2) && mentionsField(bo.Y, pkgDomain, "HealthCheckResult", "Status", 2) {
 			changed = true
 		}
-		if bo.Op == token.EQL && cf.True && statusConstName(c, bo.Y) == "healthy" && mentionsField(bo.X, pkgDomain, "HealthCheckResult", "Status", 2) {
+		if assertsEq(bo, cf.True) && statusConstName(c, bo.Y) == "healthy" && mentionsField(bo.X, pkgDomain, "HealthCheckResult", "Status", 2) {
 			isHealthy = true
 		}
 		if bo.Op == token.NEQ && !cf.True && isNilConst(bo.Y) {
@@ -791,7 +791,7 @@ func checkC08(c *Ctx, r *Report) {
 			eachInstr(rs, func(in ssa.Instruction) {
 				if isZeroFail(in) {
 					for _, cf := range normFacts(condFacts(in.Block())) {
-						if bo, ok := cf.Cond.(*ssa.BinOp); ok && bo.Op == token.EQL && cf.True {
+						if bo, ok := cf.Cond.(*ssa.BinOp); ok && assertsEq(bo, cf.True) {
 							if k, ok := constInt(bo.Y); ok && k == 0 {
 								found = true
 							}
